@@ -756,6 +756,50 @@ def check_flood(ctx, rng, is_async):
         ctx.violation(f"datagrams-read-on-after-the-deadline:{mode}", f"{fake.reads_after_deadline} datagrams read after the deadline (timeout {timeout}, one datagram per {tick} s, {n} skipped ones{' then the genuine reply' if genuine_after else ''}); ended with {got} at +{clock.now - 5000.0:.2f} s", case)
 
 
+def check_real_backend_deadline(ctx, rng):
+    """the shipped asyncio backend itself (real datagram sockets on the loopback interface, a peer that never answers): an
+    exchange whose time is up -- a tiny timeout, or none left at all (0) -- ends in Timeout; it does not wait on.  The verdict
+    is not a wall-clock measurement: only an exchange still waiting after a 15 s guard (300 times its timeout) counts."""
+    import dns.asyncbackend
+
+    async def scenario(timeout):
+        backend = dns.asyncbackend.get_backend("asyncio")
+        peer = socket.socket(socket.AF_INET, socket.SOCK_DGRAM)
+        peer.bind(("127.0.0.1", 0))
+        try:
+            port = peer.getsockname()[1]
+            q = dns.message.make_query("deadline.example.", "A")
+            s = await backend.make_socket(socket.AF_INET, socket.SOCK_DGRAM, 0, ("127.0.0.1", 0))
+            try:
+                try:
+                    await asyncio.wait_for(dns.asyncquery.udp(q, "127.0.0.1", timeout=timeout, port=port, sock=s, backend=backend), 15)
+                    return "returned"
+                except dns.exception.Timeout:
+                    return "Timeout"
+                except asyncio.TimeoutError:
+                    return "still-waiting-after-guard"
+            finally:
+                await s.close()
+        finally:
+            peer.close()
+
+    for timeout in (0, 0.05):
+        try:
+            got = run_async(scenario(timeout))
+        except OSError as e:
+            ctx.count("obs.loopback_unavailable")
+            return
+        except Exception as e:
+            ctx.violation("real-backend-exchange-raised:" + core.exc_sig(e), repr(e), {"kind": "real-backend", "timeout": timeout})
+            return
+        ctx.count("evaluations")
+        ctx.count("mon.real_asyncio_backend_deadline")
+        ctx.seen(("real-backend", timeout, got))
+        if got != "Timeout":
+            ctx.violation(f"exchange-with-no-time-left-does-not-time-out:asyncio-backend:timeout-{timeout}", got, {"kind": "real-backend", "timeout": timeout})
+            return
+
+
 def check_fallback(ctx, rng, is_async):
     """udp_with_fallback: a genuine TC reply over UDP, then the same exchange over TCP -- with the caller's options (one RR per
     RRset, ignore trailing octets) applied to BOTH legs"""
@@ -807,6 +851,7 @@ def check_fallback(ctx, rng, is_async):
 
 def run(spec, ctx):
     rng = ctx.rng
+    check_real_backend_deadline(ctx, rng)
     for i in range(200):
         check_fallback(ctx, rng, is_async=(i % 2 == 1))
         check_flood(ctx, rng, is_async=(i % 2 == 1))
